@@ -3026,4 +3026,155 @@ theorem modInv_none (a : Int) (m : Nat) (hm : 0 < m) (h : modInv? a m = none) : 
     rw [← e]; exact hgcd
 
 
+
+/-! ### mpn_pow_1 -/
+
+/-- `v` occupies exactly `k` limbs. -/
+def Sz (v k : Nat) : Prop := B ^ (k - 1) ≤ v ∧ v < B ^ k ∧ 1 ≤ k
+
+theorem Sz_mul (r rn b bn : Nat) (hr : Sz r rn) (hb : Sz b bn) :
+    B ^ (rn + bn - 2) ≤ r * b ∧ r * b < B ^ (rn + bn) := by
+  obtain ⟨r1, r2, r3⟩ := hr
+  obtain ⟨b1, b2, b3⟩ := hb
+  constructor
+  · have : B ^ (rn + bn - 2) = B ^ (rn - 1) * B ^ (bn - 1) := by rw [← pow_add]; congr 1; omega
+    rw [this]; exact Nat.mul_le_mul r1 b1
+  · rw [pow_add]; exact Nat.mul_lt_mul'' r2 b2
+
+theorem pow1Loop_spec (b bn : Nat) (hb : Sz b bn) :
+    ∀ (bits : List Bool) (r rn h : Nat), bits ≠ [] → r = b ^ (2 * h) → Sz r rn →
+      (pow1Loop b bn bits r rn).1 = b ^ (bits.foldl (fun a bit => 2 * a + (if bit then 1 else 0)) h) ∧
+      Sz (pow1Loop b bn bits r rn).1 (pow1Loop b bn bits r rn).2
+  | [], _, _, _, hne, _, _ => absurd rfl hne
+  | bit :: rest, r, rn, h, _, hr, hs => by
+    -- after the optional multiplication
+    have hstep : ∀ p : Nat × Nat,
+        p = (if bit = true then
+              (if bn = 1 then (r * b, rn + (if (r * b / B ^ rn != 0) = true then 1 else 0))
+               else (r * b, rn + bn - (if r * b / B ^ (rn + bn - 1) = 0 then 1 else 0)))
+             else (r, rn)) →
+        p.1 = b ^ (2 * h + (if bit then 1 else 0)) ∧ Sz p.1 p.2 := by
+      intro p hp
+      cases bit with
+      | false =>
+        simp only [Bool.false_eq_true, if_false] at hp; subst hp
+        exact ⟨by simpa using hr, hs⟩
+      | true =>
+        simp only [if_true] at hp
+        obtain ⟨m1, m2⟩ := Sz_mul r rn b bn hs hb
+        have hv : r * b = b ^ (2 * h + 1) := by rw [hr, pow_succ]
+        obtain ⟨_, _, hrn⟩ := hs
+        obtain ⟨_, _, hbn⟩ := hb
+        by_cases h1 : bn = 1
+        · rw [if_pos h1] at hp; subst hp; subst h1
+          refine ⟨hv, ?_⟩
+          simp only
+          by_cases hc : r * b / B ^ rn = 0
+          · have : (r * b / B ^ rn != 0) = false := by simp [hc]
+            simp only [this, Bool.false_eq_true, if_false, Nat.add_zero]
+            have hlt := (Nat.div_eq_zero_iff_lt (Nat.pow_pos B_pos)).mp hc
+            have e : rn + 1 - 2 = rn - 1 := by omega
+            rw [e] at m1
+            exact ⟨m1, hlt, hrn⟩
+          · have : (r * b / B ^ rn != 0) = true := by simpa using hc
+            simp only [this, if_true]
+            have hge : B ^ rn ≤ r * b := by
+              by_contra hlt
+              exact hc ((Nat.div_eq_zero_iff_lt (Nat.pow_pos B_pos)).mpr (by omega))
+            exact ⟨by simpa using hge, m2, by omega⟩
+        · rw [if_neg h1] at hp; subst hp
+          refine ⟨hv, ?_⟩
+          simp only
+          by_cases hc : r * b / B ^ (rn + bn - 1) = 0
+          · simp only [hc, if_true]
+            have hlt := (Nat.div_eq_zero_iff_lt (Nat.pow_pos B_pos)).mp hc
+            have e : rn + bn - 1 - 1 = rn + bn - 2 := by omega
+            exact ⟨by rw [e]; exact m1, hlt, by omega⟩
+          · simp only [hc, if_false, Nat.sub_zero]
+            have hge : B ^ (rn + bn - 1) ≤ r * b := by
+              by_contra hlt
+              exact hc ((Nat.div_eq_zero_iff_lt (Nat.pow_pos B_pos)).mpr (by omega))
+            exact ⟨hge, m2, by omega⟩
+    rw [pow1Loop]
+    simp only [List.foldl_cons]
+    generalize hpe : (if bit = true then
+              (if bn = 1 then (r * b, rn + (if (r * b / B ^ rn != 0) = true then 1 else 0))
+               else (r * b, rn + bn - (if r * b / B ^ (rn + bn - 1) = 0 then 1 else 0)))
+             else (r, rn)) = p
+    obtain ⟨p1, p2⟩ := hstep p hpe.symm
+    obtain ⟨x, xn⟩ := p
+    simp only at p1 p2 ⊢
+    cases rest with
+    | nil => simpa using ⟨p1, p2⟩
+    | cons c cs =>
+      simp only
+      have hsq : Sz (x * x) (dropTop (x * x) (2 * xn)) := by
+        obtain ⟨m1, m2⟩ := Sz_mul x xn x xn p2 p2
+        obtain ⟨_, _, hxn⟩ := p2
+        have e2 : xn + xn = 2 * xn := by omega
+        rw [e2] at m1 m2
+        unfold dropTop
+        by_cases hc : x * x / B ^ (2 * xn - 1) = 0
+        · simp only [hc, if_true]
+          have hlt := (Nat.div_eq_zero_iff_lt (Nat.pow_pos B_pos)).mp hc
+          have e : 2 * xn - 1 - 1 = 2 * xn - 2 := by omega
+          exact ⟨by rw [e]; exact m1, hlt, by omega⟩
+        · simp only [hc, if_false, Nat.sub_zero]
+          have hge : B ^ (2 * xn - 1) ≤ x * x := by
+            by_contra hlt
+            exact hc ((Nat.div_eq_zero_iff_lt (Nat.pow_pos B_pos)).mpr (by omega))
+          exact ⟨hge, m2, by omega⟩
+      have hx2 : x * x = b ^ (2 * (2 * h + (if bit then 1 else 0))) := by
+        rw [p1, ← pow_add]; congr 1; omega
+      exact pow1Loop_spec b bn hb (c :: cs) (x * x) _ _ (by simp) hx2 hsq
+
+/-- mpn_pow_1 (value-level model of mpn/generic/pow_1.c): the returned `rn` limbs hold `b^exp` exactly and
+    `rn` is the normalised size (top limb non-zero). -/
+theorem mpn_pow_1_spec (bp : List Nat) (exp : Nat) (hb : Norm bp) (hne : bp ≠ []) :
+    val (mpn_pow_1 bp exp) = val bp ^ exp ∧ Limbs (mpn_pow_1 bp exp) ∧
+    B ^ ((mpn_pow_1 bp exp).length - 1) ≤ val (mpn_pow_1 bp exp) := by
+  unfold mpn_pow_1
+  by_cases h0 : exp = 0
+  · subst h0; simp [Limbs_cons, Limbs_nil, B_eq]
+  · simp only [h0, if_false]
+    by_cases h1 : exp = 1
+    · subst h1; simp only [if_true, pow_one]
+      exact ⟨trivial, hb.1, Norm_ge bp hb hne⟩
+    · simp only [h1, if_false]
+      have hbs : Sz (val bp) bp.length := ⟨Norm_ge bp hb hne, val_lt bp hb.1, List.length_pos_of_ne_nil hne⟩
+      have hsq : Sz (val bp * val bp) (dropTop (val bp * val bp) (2 * bp.length)) := by
+        obtain ⟨m1, m2⟩ := Sz_mul _ _ _ _ hbs hbs
+        obtain ⟨_, _, hxn⟩ := hbs
+        have e2 : bp.length + bp.length = 2 * bp.length := by omega
+        rw [e2] at m1 m2
+        unfold dropTop
+        by_cases hc : val bp * val bp / B ^ (2 * bp.length - 1) = 0
+        · simp only [hc, if_true]
+          have hlt := (Nat.div_eq_zero_iff_lt (Nat.pow_pos B_pos)).mp hc
+          have e : 2 * bp.length - 1 - 1 = 2 * bp.length - 2 := by omega
+          exact ⟨by rw [e]; exact m1, hlt, by omega⟩
+        · simp only [hc, if_false, Nat.sub_zero]
+          have hge : B ^ (2 * bp.length - 1) ≤ val bp * val bp := by
+            by_contra hlt
+            exact hc ((Nat.div_eq_zero_iff_lt (Nat.pow_pos B_pos)).mpr (by omega))
+          exact ⟨hge, m2, by omega⟩
+      have hne' : lowerBits exp ≠ [] := by
+        unfold lowerBits
+        have : 1 ≤ exp.log2 := by
+          by_contra hlt
+          have h0' : exp.log2 = 0 := by omega
+          have := @Nat.lt_log2_self exp
+          rw [h0'] at this; simp at this; omega
+        intro h
+        have := congrArg List.length h
+        simp at this; omega
+      obtain ⟨l1, l2⟩ := pow1Loop_spec (val bp) bp.length hbs (lowerBits exp) (val bp * val bp) _ 1 hne'
+        (by rw [← pow_two]) hsq
+      rw [lowerBits_spec exp h0] at l1
+      generalize pow1Loop (val bp) bp.length (lowerBits exp) (val bp * val bp) (dropTop (val bp * val bp) (2 * bp.length)) = p at *
+      obtain ⟨s1, s2, s3⟩ := l2
+      rw [val_toLimbs_lt _ _ s2, toLimbs_length]
+      exact ⟨l1, Limbs_toLimbs _ _, s1⟩
+
+
 end Mpir.Powm
